@@ -7,6 +7,7 @@ mod fx;
 mod gauss;
 mod named;
 mod numvm;
+mod spline;
 mod util;
 
 fn main() {
@@ -25,6 +26,7 @@ fn main() {
         "fx" => fx::main(&args[1..]),
         "curve" => curve::main(&args[1..]),
         "gauss" => gauss::main(&args[1..]),
+        "spline" => spline::main(&args[1..]),
         "numvm" => numvm::main(&args[1..]),
         other => {
             eprintln!("unknown engine {}", other);
